@@ -66,6 +66,15 @@ CHECKS["C02"] = dict(
     design_ref="4/C02",
 )
 
+CHECKS["C09"] = dict(
+    engine="mirsym",
+    technique="SMT (z3/cvc5; bit-vectors, arrays, uninterpreted functions) over a symbolic execution of the real MIR of PeerDHTRecord::{validate_inputs, create_signable_message, verify_signature, content_hash/verification key}, UserId::from_public_key and SignatureCache::verify_cached, with ML-DSA verification and BLAKE3 as uninterpreted collision-free functions over abstract byte strings",
+    category="proof",
+    text="STRUCTURAL claim: for two ARBITRARY records presented to an empty cache, the cached verdict equals direct verification for both; verification succeeds only if the user id is the one derived from the embedded key; two records with the same signable message agree on every signed field; the constructor accepts exactly the documented bounds. Holds for every interpretation of the signature predicate and hash (collision-free). Two genuine defects found this way on the original tree were replayed natively with real keys and repaired (known_findings.json).",
+    note="The signature algebra itself (a signature verifies only for its message and key: C08) and hash collision resistance are ASSUMED (uninterpreted functions). Sequences longer than two records, cache eviction order at capacity and byte-level mutations of serialised endpoints are outside. Trusts the byte-string/HashMap/postcard summaries.",
+    design_ref="4/C09",
+)
+
 NA = {
     "C01": "monolithic async fn over tokio/QUIC transport with string-keyed hash sets and timeouts; no solver-reachable encoding of the real code",
     "C02": "pending: routing-table kernel check not built yet",
